@@ -12,7 +12,7 @@ EXPLANATION = ('The convergence statement of C06 is statistical and is NOT decid
                'generator state at the end of the transition descends from that draw (C06.advance). Second decided clause (also only necessary): the transition functions are '
                'the kernels whose normal forms C01-C05 specify (MH ratio with the Hastings correction in the right direction, sequential Gibbs sweep, leapfrog/Hamiltonian, NUTS '
                'tree + adaptation) and the collection loops discard exactly the warm-up rows (C09 loop obligations) -- the obligations of those specs are re-decided here under C06 keys.')
-FLOORS = {'obligations': 210}   # counted on the reference tree; fewer instantiated obligations is reported, never passed silently
+FLOORS = {'obligations': 244}   # counted on the reference tree; fewer instantiated obligations is reported, never passed silently
 TECHNIQUE = 'draw-site table: distribution kind from resolved callees/values, single-use (one role sink) by value-flow containment, generator-advance by provenance chain; kernel normal forms shared with C01-C05/C09'
 LEVEL_NOTE = ('Decides only the draw-kind / single-use / generator-advance clause and the kernel-shape clause shared with C01-C05/C09. Convergence of long-run averages and calibration of Monte-Carlo error are outside '
               'this check; trusted: rand/rand_distr contracts (StandardUniform on [0,1), StandardNormal, Exp1), semantic table.')
@@ -91,10 +91,11 @@ def kernels(ctx):
     """second decided clause: every sampler's transition is the kernel whose invariance C01-C05 establish, and burn-in
     rows are the ones discarded (C09's loop obligations).  Same rules, decided here as well: a transition that is not
     one of the specified kernels does not (provably) leave the target invariant, so long-run averages need not converge."""
-    from . import C01, C02, C03, C04, C05, C09
+    from . import C01, C02, C03, C04, C05, C08, C09
     n = {}
     for mod, keep in ((C01, lambda o: o.startswith('C01.')), (C02, lambda o: o.startswith('C02.')), (C03, lambda o: o.startswith('C03.')),
                       (C04, lambda o: o.startswith('C04.')), (C05, lambda o: o.startswith('C05.')),
+                      (C08, lambda o: True),      # 'over independent chains': no two chains / generators of a chain share a stream
                       (C09, lambda o: o.startswith(('C09.run_chain.', 'C09.hmc_run.', 'C09.nuts_run.', 'C09.runner_run.', 'C09.accessor')))):
         n[mod.__name__.rsplit('.', 1)[-1]] = len(ctx.borrow(mod.run, keep))
     for k, v in n.items():
